@@ -28,7 +28,24 @@ var verRE = regexp.MustCompile(`^[0-9]+\.[0-9]+$`)
 
 func genCmd(c *ev.Case) (string, string) {
 	r := c.Rand
-	switch r.Intn(14) {
+	switch r.Intn(15) {
+	case 13:
+		// legacy attribute names are exact: look-alikes in another case are just extended attributes
+		ver := []string{"sshClientVersion", "SSHCLIENTVERSION", "sshclientversion", "SshClientVersion"}
+		parts := []string{"IFVer=" + strconv.Itoa(r.Intn(7)), "req=" + gen.Ident(r, 4) + "@" + gen.Ident(r, 5)}
+		for k := 1 + r.Intn(2); k > 0; k-- {
+			parts = append(parts, ver[r.Intn(len(ver))]+"="+strconv.Itoa(1+r.Intn(11))+"."+strconv.Itoa(r.Intn(12)))
+		}
+		switch r.Intn(4) {
+		case 0:
+			parts = append(parts, "REQ=root@evil", "Req=root@evil")
+		case 1:
+			parts = append(parts, "hardkey=true", "HARDKEY=true", "ifver=9")
+		case 2:
+			parts = append(parts, "SSHClientVersion=") // the exact name, empty
+		}
+		r.Shuffle(len(parts), func(i, j int) { parts[i], parts[j] = parts[j], parts[i] })
+		return strings.Join(parts, " "), "legacy-casefold"
 	case 0, 1, 2, 3:
 		a := msgref.Attrs(r, false)
 		if r.Intn(3) > 0 {
